@@ -225,6 +225,10 @@ class Script:
                         print("P2SH witness program with extra ScriptSig items")
                         return False
                     commands.extend(redeem_commands)
+                # BIP141: a witness program is the whole ScriptPubKey (or the whole
+                # RedeemScript), so these rules only apply once no commands remain
+                if len(commands) > 0:
+                    continue
                 # witness program version 0 rule. if stack commands are:
                 # 0 <20 byte hash> this is p2wpkh
                 if len(stack) == 2 and stack[0] == b"" and len(stack[1]) == 20:
